@@ -254,7 +254,13 @@ class NDNApp:
             implicit_sha256 = b''
         node = self._int_tree.setdefault(node_name, InterestTreeNode())
         node.append_interest(future, interest_param, implicit_sha256)
-        self.face.send(raw_interest)
+        try:
+            self.face.send(raw_interest)
+        except BaseException:
+            # Not sent: the caller gets the error, and nothing of this Interest stays pending
+            if node.timeout(future) and self._int_tree.get(node_name) is node:
+                del self._int_tree[node_name]
+            raise
         # The lifetime runs from now, not from the moment the caller starts to await the result
         lifetime = 100 if interest_param.lifetime is None else interest_param.lifetime
         deadline = aio.get_running_loop().time() + lifetime / 1000.0
